@@ -116,6 +116,8 @@ structure WSt where
   fail : Nat := 0
   writes : Nat := 0
   dead : Bool := false
+  queued : Bool := false   -- Execute only queues the handler jobs (qx=1 on a non-blocking conn); `J` runs them
+  jobsD : List (Bool × Bool × Nat × List String) := []   -- queued jobs: has a payload, is a ping, payload length, delivery labels
 
 structure DS where
   g : Cfg
@@ -214,11 +216,22 @@ partial def frames (w : WSt) (dl : List String) (mlen : Nat) : WSt × List Strin
     let w := { w with s := s1, rx := w.rx.drop h.total, off := w.off + h.total }
     -- message length for the delivery report
     let mlen' := if control then mlen else mlen + h.bl
-    let dl := if !control && h.fin then dl ++ [s!"m{mlen'}"] else dl
-    let dl := if !control && h.bl > 0 && w.g.df then dl ++ [s!"f{h.bl}"] else dl
+    let labels : List String := (if !control && h.fin then [s!"m{mlen'}"] else []) ++
+      (if !control && h.bl > 0 && w.g.df then [s!"f{h.bl}"] else [])
     let mlen' := if !control && h.fin then 0 else mlen'
-    -- handlers, oldest payload first; a ping makes the default handler send a pong
     let isPing := h.opcode == 9
+    if w.queued then
+      -- the executor only queues the handler jobs: every payload is handed over to its job
+      let w :=
+        if control then
+          if newHeld == 0 then { w with jobsD := w.jobsD ++ [(false, isPing, 0, [])] }
+          else { w with s := OwnW.rxQueue w.s, jobsD := w.jobsD ++ [(true, isPing, h.bl, [])] }
+        else (List.range newHeld).foldl (fun w i =>
+          { w with s := OwnW.rxQueue w.s, jobsD := w.jobsD ++ [(true, false, 0, (labels.drop i).take 1)] }) w
+      frames w dl mlen'
+    else
+    let dl := dl ++ labels
+    -- handlers, oldest payload first; a ping makes the default handler send a pong
     let w :=
       if control then
         if newHeld == 0 then (if isPing then (send w 10 h.bl).1 else w)
@@ -229,6 +242,21 @@ partial def frames (w : WSt) (dl : List String) (mlen : Nat) : WSt × List Strin
           else { w with s := OwnW.rxHandle w.g w.s false (0, true) }
       else (List.range newHeld).foldl (fun w _ => { w with s := OwnW.rxHandle w.g w.s false (0, true) }) w
     frames w dl mlen'
+
+/-- the executor runs the queued handler jobs, oldest first -/
+def runJobs (w : WSt) : WSt × List String :=
+  w.jobsD.foldl (fun (acc : WSt × List String) j =>
+    let w := acc.1
+    let (hasP, isPing, bl, labels) := j
+    let w :=
+      if hasP then
+        if isPing then
+          let (w1, fr) := answers w [frameSize w.client bl]
+          { w1 with s := OwnW.jobRun w1.g w1.s true (fr.headD (0, true)) }
+        else { w with s := OwnW.jobRun w.g w.s false (0, true) }
+      else if isPing then (send w 10 0).1 else w
+    -- the user handlers are wrapped in `if !c.closed`: after CloseAndClean a job delivers nothing (it still frees)
+    (w, if w.s.closed then acc.2 else acc.2 ++ labels)) ({ w with jobsD := [] }, [])
 
 def showQ (w : WSt) : String :=
   let slots := (List.replicate w.s.qtaken "-") ++ w.s.qrest.map toString
@@ -350,7 +378,7 @@ partial def loop (h : IO.FS.Stream) (s : DS) : IO Unit := do
           field rest "bad" with
     | some qmax, some fail, some bad =>
       let wg : OwnW.Cfg := { async := fb "async", qmax := qmax, rp := fb "rp", df := fb "df" }
-      let w0 : WSt := { g := wg, client := fb "client", bad := bad.toNat?, fail := fail }
+      let w0 : WSt := { g := wg, client := fb "client", bad := bad.toNat?, fail := fail, queued := fb "qx" && !fb "blk" }
       IO.println "ok"
       loop h { s with ph := .none, b := none, c := none, w := some w0 }
     | _, _, _ => IO.println "bad-op"; loop h { s with ph := .none, b := none, c := none, w := none }
@@ -434,6 +462,16 @@ partial def loop (h : IO.FS.Stream) (s : DS) : IO Unit := do
         let w' := WsGlue.settle { w with s := s1 }
         IO.println s!"S err=none {WsGlue.showQ w'} tr={Own.traceSince w'.s.heap n0}"
         loop h { s with w := some w' }
+    | none => IO.println "bad-op"; loop h s
+  | ["J"] =>
+    match s.w with
+    | some w =>
+      let n0 := w.s.heap.trace.length
+      let (w1, dl) := WsGlue.runJobs w
+      let w' := WsGlue.settle w1
+      let dls := if dl.isEmpty then "-" else String.intercalate "," dl
+      IO.println s!"J dl={dls} {WsGlue.showQ w'} tr={Own.traceSince w'.s.heap n0}"
+      loop h { s with w := some w' }
     | none => IO.println "bad-op"; loop h s
   | ["X"] =>
     match s.b, s.w with
